@@ -387,7 +387,7 @@ Definition res_rel (res up : result) : Prop :=
 Theorem handler_rel h0 accept ae ops :
   res_rel (handler sniff ctm h0 accept ae ops) (bare sniff h0 ops).
 Proof.
-  unfold handler, bare. destruct (accepts_gzip accept ae).
+  unfold handler, handler_core, bare. destruct (accepts_gzip accept ae).
   - pose proof (sim_run ops _ _ (sim_init h0)) as (Hp & Hc & Hi & H).
     unfold grw_result, rec_result, res_rel. cbn [o_code o_hdr o_plain o_fed o_panic o_info].
     destruct (g_sel (grw_run ops _)) as [[|]|].
@@ -465,6 +465,61 @@ Qed.
 
 End Sim.
 
+(* ================= acceptsGzip (commit 7cff601) against the RFC reading ================= *)
+Lemma q_zero_zero_dot v : q_zero v = true -> zero_dot v = true /\ v <> [].
+Proof.
+  destruct v as [|a [|b ds]]; cbn [q_zero]; try discriminate.
+  - intros H. apply N.eqb_eq in H; subst a. split; [reflexivity|discriminate].
+  - intros H. apply andb_true_iff in H as [H Hd]. apply andb_true_iff in H as [Ha Hb].
+    apply N.eqb_eq in Ha, Hb; subst a b. split; [|discriminate].
+    unfold zero_dot. cbn [forallb]. change ((48 =? 48) || (48 =? 46)) with true.
+    change ((46 =? 48) || (46 =? 46)) with true. cbn [andb].
+    rewrite forallb_forall in *. intros x Hx. rewrite (Hd x Hx). reflexivity.
+Qed.
+
+Lemma zero_dot_lower v : zero_dot v = true -> lower v = v.
+Proof.
+  induction v as [|c v IH]; [reflexivity|]. unfold zero_dot. cbn [forallb map lower].
+  intros H. apply andb_true_iff in H as [Hc Hv]. fold (lower v). rewrite (IH Hv).
+  apply orb_true_iff in Hc as [Hc|Hc]; apply N.eqb_eq in Hc; subst c; reflexivity.
+Qed.
+
+(* an element the code accepts is a gzip / x-gzip entry whose weight is not zero in the RFC reading *)
+Lemma elem_ok_coding e : gzip_elem_ok e = true ->
+  is_gzip_name (fst (coding e)) = true /\ snd (coding e) = true.
+Proof.
+  unfold gzip_elem_ok, coding. destruct (cut_byte e 59) as [name params]. cbn [fst snd].
+  intros H. apply andb_true_iff in H as [Hn Hw]. split; [exact Hn|].
+  unfold strict_weight. destruct (trim_space params) as [|c [|d v]]; try reflexivity.
+  destruct (((c =? 113) || (c =? 81)) && (d =? 61) && negb (existsb (N.eqb 59) v)) eqn:Ec; [|reflexivity].
+  destruct (q_zero v) eqn:Ez; [exfalso|reflexivity].
+  apply andb_true_iff in Ec as [Ec _]. apply andb_true_iff in Ec as [Ec Ed].
+  apply N.eqb_eq in Ed; subst d.
+  destruct (q_zero_zero_dot v Ez) as [Hz Hne].
+  assert (Hl : lower (c :: 61 :: v) = 113 :: 61 :: v).
+  { cbn [lower map]. fold (lower v). rewrite (zero_dot_lower v Hz).
+    apply orb_true_iff in Ec as [Ec|Ec]; apply N.eqb_eq in Ec; subst c; reflexivity. }
+  rewrite Hl in Hw. unfold zero_weight in Hw. rewrite Hz in Hw.
+  change ((113 =? 113) && (61 =? 61)) with true in Hw.
+  destruct v; [congruence|]. discriminate.
+Qed.
+
+(* acceptsGzip implies the RFC reading, for every request *)
+Lemma accepts_rfc accept ae : accepts_gzip accept ae = true -> rfc_accepts_gzip ae = true.
+Proof.
+  unfold accepts_gzip. destruct (contains (hd [] accept) EVENT_STREAM); [discriminate|].
+  intros Ha. apply existsb_exists in Ha as (e & Hin & Hok).
+  destruct (elem_ok_coding e Hok) as [Hn Hw].
+  assert (Hin' : In (coding e) (map coding (flat_map (fun v => split_byte v 44) ae))).
+  { apply in_map. destruct ae as [|v ae']; cbn [hd] in Hin.
+    - cbn in Hin. destruct Hin as [<-|[]]. vm_compute in Hok. discriminate.
+    - cbn [flat_map]. apply in_or_app. left. exact Hin. }
+  unfold rfc_accepts_gzip.
+  assert (E1 : existsb (fun c => is_gzip_name (fst c)) (map coding (flat_map (fun v => split_byte v 44) ae)) = true).
+  { apply existsb_exists. exists (coding e). auto. }
+  rewrite E1. apply existsb_exists. exists (coding e). split; [exact Hin'|]. rewrite Hn, Hw. reflexivity.
+Qed.
+
 (* ================= the clauses of C17, in their final form ================= *)
 Section Clauses.
 Variable sniff : str -> str.
@@ -492,7 +547,7 @@ Lemma compressed_only_if f : o_fed res = Some f ->
 Proof.
   intros Hf. pose proof (handler_rel sniff ctm h0 accept ae ops) as (_ & _ & _ & H).
   fold res up in H. rewrite Hf in H. split; [|split; apply H].
-  unfold res, handler in Hf. destruct (accepts_gzip accept ae); [reflexivity|].
+  unfold res, handler, handler_core in Hf. destruct (accepts_gzip accept ae); [reflexivity|].
   unfold rec_result in Hf. cbn [o_fed] in Hf. discriminate.
 Qed.
 
@@ -528,26 +583,43 @@ Proof.
   fold res up in H. rewrite Hf in H. split; apply H.
 Qed.
 
-(* against the RFC's reading of Accept-Encoding: outside the known-finding region *)
-Lemma compressed_only_if_rfc_on_domain f : o_fed res = Some f ->
-  q0_region ae = false -> rfc_accepts_gzip ae = true.
+(* against the RFC's reading of Accept-Encoding: every request (no region left after bfb8a14) *)
+Lemma compressed_only_if_rfc_on_domain f : o_fed res = Some f -> rfc_accepts_gzip ae = true.
 Proof.
-  intros Hf Hq. destruct (compressed_only_if f Hf) as (Ha & _).
-  unfold accepts_gzip in Ha. destruct (contains (hd [] accept) EVENT_STREAM); [discriminate|].
-  unfold q0_region in Hq. rewrite Ha in Hq. cbn [andb] in Hq.
-  destruct (rfc_accepts_gzip ae); [reflexivity|discriminate].
+  intros Hf. destruct (compressed_only_if f Hf) as (Ha & _). exact (accepts_rfc accept ae Ha).
 Qed.
 End Clauses.
 
-(* "gzip;q=0": the client refuses gzip, the handler compresses anyway *)
+(* before commit 7cff601: "gzip;q=0" -- the client refuses gzip, the handler compressed anyway *)
 Lemma accept_q0_refuted : forall sniff, exists ae ops f,
   rfc_accepts_gzip ae = false
-  /\ o_fed (handler sniff (fun _ => true) [] [] ae ops) = Some f.
+  /\ o_fed (handler_q0_unrepaired sniff (fun _ => true) [] [] ae ops) = Some f.
 Proof.
   intros sniff.
   exists [bs "gzip;q=0"], [SetHeader H_CT (bs "text/html"); Write (bs "hello")], (bs "hello").
   split; vm_compute; reflexivity.
 Qed.
+
+(* the code as it is refuses every zero-weight spelling, either case, and matches names exactly ... *)
+Example q0_repaired :
+  forallb (fun v => negb (accepts_gzip [] [bs v]))
+    ["gzip;q=0"; "gzip; q=0.0"; "gzip ; q=0"; "identity;q=1, gzip;q=0"; "deflate, gzip;q=0.000"; "gzip;q=0."; "x-gzip;q=0";
+     "gzip;Q=0"; "gzip; Q=0.0"; "deflate, gzip;Q=0"; "Gzip;q=0"; "notgzip2"; "deflate"; ""]%string = true
+  /\ forallb (fun v => accepts_gzip [] [bs v])
+    ["gzip"; "GZIP"; "X-GZIP"; " gzip "; "deflate, gzip;q=0.5"; "gzip;q=0, x-gzip"; "gzip;q=0;x=1"]%string = true.
+Proof. vm_compute. split; reflexivity. Qed.
+
+(* ... between commits 7cff601 and bfb8a14 two kinds of refusal were still missed: a zero weight
+   spelled with an upper-case Q, and a coding that merely contains the letters *)
+Lemma accept_q0_residual_refuted : forall sniff,
+  let ops := [SetHeader H_CT (bs "text/html"); Write (bs "hello")] in
+  rfc_accepts_gzip [bs "gzip;Q=0"] = false
+  /\ o_fed (handler_q0_7cff601 sniff (fun _ => true) [] [] [bs "gzip;Q=0"] ops) = Some (bs "hello")
+  /\ rfc_accepts_gzip [bs "notgzip2"] = false
+  /\ o_fed (handler_q0_7cff601 sniff (fun _ => true) [] [] [bs "notgzip2"] ops) = Some (bs "hello")
+  /\ o_fed (handler sniff (fun _ => true) [] [] [bs "gzip;Q=0"] ops) = None
+  /\ o_fed (handler sniff (fun _ => true) [] [] [bs "notgzip2"] ops) = None.
+Proof. intros sniff. vm_compute. repeat split; reflexivity. Qed.
 
 (* before commit a52f2fd: the upstream's 103 Early Hints (forwarded by httputil.ReverseProxy, which
    then clears the header map) took the decision from headers that are not the final response's;
@@ -582,12 +654,6 @@ Example identity_nonvacuous :
   o_fed (handler (fun _ => bs "text/plain") (fun t => has_prefix t (bs "text/")) [] [] [bs "gzip"]
            [SetHeader H_CT (bs "text/html"); SetHeader H_CE (bs "br"); Write (bs "hello")]) = None.
 Proof. vm_compute. reflexivity. Qed.
-
-Example q0_region_empty_on_common_requests :
-  q0_region [bs "gzip"] = false /\ q0_region [bs "gzip, deflate, br"] = false
-  /\ q0_region [bs "deflate, gzip;q=0.5"] = false /\ q0_region [bs "x-gzip"] = false
-  /\ q0_region [bs "gzip;q=0"] = true /\ q0_region [bs "identity;q=1, gzip; q=0.000"] = true.
-Proof. vm_compute. repeat split; reflexivity. Qed.
 
 (* ================= the shared writer pool ================= *)
 Section PoolProofs.
